@@ -128,8 +128,8 @@ def finding_ik(case, ctx, i, sid, pid, pc, t, rci):
             continue
         for e in ev_list(ob):
             a = e.get("a") or []
-            if e["k"] == "MLoadLatest" and a[0] == pid and a[1] != "err":
-                tv = ob["now"]
+            if e["k"] == "MLoadLatest" and a[0] == pid and a[1] != "err" and ob["r"] in ("enc", "dec"):
+                tv = ob["now"]       # a validation counts only if the operation got through it (a faulted one may stop right after the read)
             if e["k"] == "MLoad" and op["k"] == "decrypt" and a[0] == pid and a[1] == pc and a[2] == "some":
                 td = ob["now"]
                 superseded = newest is not None and newest > pc
